@@ -64,6 +64,27 @@ def _is_get(callee):
     return re.sub(r"::<[^<>]*>$", "", callee).endswith("<impl [T]>::get")
 
 
+def unmap(e):
+    """`[a, b].map(f)` is `[f(a), f(b)]` and `arr.map(f)[i]` is `f(arr[i])`: array::map applies f to each element in place."""
+    if not isinstance(e, tuple) or not e:
+        return e
+    e = tuple(unmap(x) if isinstance(x, tuple) else x for x in e)
+
+    def is_map(c):
+        return isinstance(c, tuple) and c[0] == "call" and c[1].endswith("array::<impl [T; N]>::map") and len(c[2]) == 2 and isinstance(c[2][1], tuple) and c[2][1][0] == "kfn"
+
+    if e[0] == "idx" and is_map(e[1]):
+        arr, fn_ = e[1][2]
+        if isinstance(arr, tuple) and arr[0] == "agg" and arr[1] == "array" and is_const(e[2]) and isinstance(e[2][1], int) and e[2][1] < len(arr[3]):
+            return ("call", fn_[1], (arr[3][e[2][1]],))
+        return ("call", fn_[1], (("idx", arr, e[2]),))
+    if is_map(e):
+        arr, fn_ = e[2]
+        if isinstance(arr, tuple) and arr[0] == "agg" and arr[1] == "array":
+            return ("agg", "array", arr[2], tuple(("call", fn_[1], (x,)) for x in arr[3]), arr[4] if len(arr) > 4 else None)
+    return e
+
+
 def dispatch_by_byte(body, reader_tag):
     """value (0..255) of the parser's argument -> the `*Data` reader type(s) reached: every loop-free path's conditions
     on the argument (equalities, range comparisons) are evaluated for each byte value; conditions on read results are
@@ -77,6 +98,32 @@ def dispatch_by_byte(body, reader_tag):
             return e[1]
         if isinstance(e, tuple) and e[0] == "cast":
             return ev(e[2], v)
+        if isinstance(e, tuple) and e[0] in ("ref", "deref"):
+            return ev(e[1], v)
+        if isinstance(e, tuple) and e[0] == "call" and e[1].split("::")[-1] == "contains" and "Range" in e[1] and len(e[2]) == 2:
+            rg = e[2][0]
+            while isinstance(rg, tuple) and rg[0] in ("ref", "deref"):
+                rg = rg[1]
+            x = ev(e[2][1], v)
+            if isinstance(rg, tuple) and rg[0] == "agg" and x is not None:
+                els = [ev(y, v) for y in rg[3]]
+                if "RangeInclusive" in rg[2] and len(els) >= 2 and None not in els[:2]:
+                    return els[0] <= x <= els[1]
+                if rg[2].endswith("ops::Range") and len(els) == 2 and None not in els:
+                    return els[0] <= x < els[1]
+            if isinstance(rg, tuple) and rg[0] == "kb" and len(rg) > 3 and x is not None:
+                # promoted range constant: decoded with the compiler's field offsets
+                raw = bytes.fromhex(rg[1])
+                fv = {n_: int.from_bytes(raw[o_:o_ + z_], "little") for (n_, o_, z_) in rg[3]}
+                if "RangeInclusive<" in rg[2] and {"start", "end"} <= set(fv) and not fv.get("exhausted"):
+                    return fv["start"] <= x <= fv["end"]
+                if "ops::Range<" in rg[2] and {"start", "end"} <= set(fv):
+                    return fv["start"] <= x < fv["end"]
+            if isinstance(rg, tuple) and rg[0] == "call" and rg[1].endswith("RangeInclusive::<Idx>::new") and x is not None:
+                els = [ev(y, v) for y in rg[2]]
+                if len(els) == 2 and None not in els:
+                    return els[0] <= x <= els[1]
+            return None
         if isinstance(e, tuple) and e[0] == "bin":
             a, b = ev(e[2], v), ev(e[3], v)
             if a is None or b is None:
@@ -91,7 +138,7 @@ def dispatch_by_byte(body, reader_tag):
             continue
         conds = []
         for d, c in p.conds:
-            if any(t == V for t in walk(d)) and not any(isinstance(t, tuple) and t[0] in ("discr", "call") for t in walk(d)):
+            if any(t == V for t in walk(d)) and not any(isinstance(t, tuple) and (t[0] == "discr" or (t[0] == "call" and t[1].split("::")[-1] != "contains")) for t in walk(d)):
                 conds.append((d, c))
         paths.append((readers[0], conds))
     out = {}
@@ -146,29 +193,36 @@ def run(ctx):
         names = [f["name"] for f in adt["variants"][0]["fields"]] if adt else []
         idxs = []
         for op in r[3]:
-            ci = [t[2][1] for t in walk(op) if isinstance(t, tuple) and t[0] == "idx" and is_const(t[2]) and t[1] in (("p", 1), ("deref", ("p", 1)))]
+            ci = [t[2][1] for t in walk(unmap(op)) if isinstance(t, tuple) and t[0] == "idx" and is_const(t[2]) and t[1] in (("p", 1), ("deref", ("p", 1)))]
             idxs.append(ci[0] if len(ci) == 1 else None)
         n_own += 1
         ctx.ob("OWN", fn, names == fields and idxs == list(range(len(fields))), f"{fn}: fields {names} are built from elements {idxs}; must be {list(range(len(fields)))}", b.file, b.line, sample=True)
     # map closures |x: HalfN| [x.a.to_f32(), ...]
     order = {"common_file_operations::Half2": ["x", "y"], "common_file_operations::Half3": ["r", "g", "b"]}
     n_cl = 0
+    # ... or named functions used as the field's `map` (counted once per field that names them)
+    row_maps = [d.text.replace(" ", "") for ty_ in ("mtrl::LegacyColorTableRow", "mtrl::DawntrailColorTableRow") for f_ in (wm.items.by_path.get(ty_) or {"fields": []})["fields"]
+                for d in W.directives(f_["attrs"]) if d.name == "map"]
     for name, b in sorted(prog.bodies.items()):
-        if b.j["kind"] != "Closure" or not name.startswith("<mtrl::") or b.argc < 2:
+        if b.j["kind"] == "Closure" and name.startswith("<mtrl::") and b.argc >= 2:
+            par, uses = 2, 1
+        elif b.j["kind"] != "Closure" and name.startswith("mtrl::") and b.argc == 1 and row_maps.count(name.split("::")[-1]):
+            par, uses = 1, row_maps.count(name.split("::")[-1])
+        else:
             continue
-        pty = b.locals[2]["ty"]
+        pty = b.locals[par]["ty"]
         if pty not in order:
             continue
         rets = [p for p in Explorer(b).explore() if p.end == "return"]
         if len(rets) != 1:
             continue
-        r = rets[0].env.local(0)
+        r = unmap(rets[0].env.local(0))
         if not (isinstance(r, tuple) and r[0] == "agg" and r[1] == "array"):
             continue
-        n_cl += 1
+        n_cl += uses
         got = []
         for op in r[3]:
-            fl = [t[2] for t in walk(op) if isinstance(t, tuple) and t[0] == "fld" and t[1] in (("p", 2), ("deref", ("p", 2)))]
+            fl = [t[2] for t in walk(op) if isinstance(t, tuple) and t[0] == "fld" and t[1] in (("p", par), ("deref", ("p", par)))]
             got.append(fl[0] if len(fl) == 1 else None)
         owner = name.split(" as ")[0].lstrip("<")
         ctx.ob("OWN", f"closure|{owner}|{pty.split('::')[-1]}", got == order[pty], f"{owner}: {pty.split('::')[-1]} -> array built from fields {got}; must be {order[pty]}", b.file, b.line, sample=(n_cl == 1))
@@ -255,7 +309,7 @@ def run(ctx):
                     # the parser's argument tuple is parameter 3 (reader, endian, args)
                     if ("v", 3) in list(walk(nd)) and not any(isinstance(t, tuple) and t[0] in ("discr", "call") for t in walk(nd)):
                         codes.setdefault(readers[0].split("mtrl::")[1].split(" ")[0], set()).add(c[1])
-        ctx.ob("MASKS", "color-table-dispatch", codes.get("LegacyColorTableData") == {0, 0x42} and codes.get("DawntrailColorTableData") == {0x53}, f"colour-table dispatch codes {dict((k, sorted(v)) for k, v in codes.items())}; reference legacy 0|0x42 (4x16), Dawntrail 0x53 (8x32)", pb.file, pb.line)
+        # (the per-value obligation below, over all 256 bytes, subsumes the point-wise codes collected here)
 
     # ---- ORDER: the variable-length shader-package records (per-shader resource lists, package-level lists, nodes)
     from ..wrules import w_order
@@ -381,8 +435,10 @@ def run(ctx):
         ctx.ob("CONSTS", "id", ok_id, "Constant.id is the stored constant_id", mb.file, mb.line, trivial=True)
 
     # ---- SELECTOR
-    v = prog.const_scalar("shpk::SELECTOR_MULTIPLER")
-    ctx.ob("SELECTOR", "multiplier", v == 31, f"SELECTOR_MULTIPLER = {v}; the selector is a base-31 polynomial", "src/shpk.rs")
+    # the private multiplier constant, whatever it is called (it is spelled SELECTOR_MULTIPLER on the pinned tree)
+    mult_consts = {p_: prog.const_scalar(p_) for p_ in prog.consts if p_.startswith("shpk::") and "MULTIPL" in p_.upper()}
+    v = next(iter(mult_consts.values()), None) if len(mult_consts) == 1 else None
+    ctx.ob("SELECTOR", "multiplier", v == 31, f"selector multiplier constant(s) {mult_consts}; the selector is a base-31 polynomial", "src/shpk.rs")
     sb = prog.body("shpk::ShaderPackage::build_selector")
     if not sb:
         ctx.fail_closed("SELECTOR", "shpk::ShaderPackage::build_selector not found")
@@ -407,8 +463,35 @@ def run(ctx):
                 mul_ok = isinstance(m1, tuple) and m1[0] == "bin" and m1[1] == "WMul" and ("v", mul) in (m1[2], m1[3]) and any(is_const(x) and x[1] == 31 or (isinstance(x, tuple) and x[0] == "kz") for x in (m1[2], m1[3]))
                 key_ok = isinstance(key_term, tuple) and key_term[0] == "bin" and key_term[1] == "WMul" and ("v", mul) in (key_term[2], key_term[3])
                 ok = mul_ok and key_ok and r == ("v", sel)
+        fold_inits = None
+        if not ok and len(loops) == 0 and len(rets) == 1:
+            # the same recurrence as a fold over the pair (selector, multiplier): the closure is the loop body, the fold's
+            # initial pair the initial values, field 0 of the result the selector
+            r_raw = rets[0].env.local(0)
+            if isinstance(r_raw, tuple) and r_raw[0] == "fld" and r_raw[2] in (0, "0") and isinstance(r_raw[1], tuple) and r_raw[1][0] == "call" and r_raw[1][1].split("::")[-1].split("<")[0] == "fold" and len(r_raw[1][2]) == 3:
+                recv_, init_, clo_ = r_raw[1][2]
+                cbf = prog.body(clo_[2]) if isinstance(clo_, tuple) and clo_[0] == "agg" and clo_[1] == "closure" else None
+                forward = not any(isinstance(t_, tuple) and t_[0] == "call" and t_[1].split("::")[-1] in ("rev", "skip", "step_by", "take", "filter") for t_ in walk(recv_))
+                if cbf is not None and forward:
+                    crs = [q for q in Explorer(cbf).explore() if q.end == "return"]
+                    if len(crs) == 1:
+                        e = N(crs[0].env.local(0))
+                        # closure parameters: 2 = the pair, 3 = &key
+                        SEL, MUL = ("fld", ("v", 2), 0), ("fld", ("v", 2), 1)
+                        if isinstance(e, tuple) and e[0] == "agg" and len(e[3]) == 2:
+                            s1, m1 = e[3]
+                            det = f"selector' = {show(s1)}, multiplier' = {show(m1)}"
+                            key_term = None
+                            if isinstance(s1, tuple) and s1[0] == "bin" and s1[1] == "WAdd" and SEL in (s1[2], s1[3]):
+                                key_term = s1[2] if s1[3] == SEL else s1[3]
+                            mul_ok = isinstance(m1, tuple) and m1[0] == "bin" and m1[1] == "WMul" and MUL in (m1[2], m1[3]) and any(is_const(x) and x[1] == 31 for x in (m1[2], m1[3]))
+                            key_ok = isinstance(key_term, tuple) and key_term[0] == "bin" and key_term[1] == "WMul" and MUL in (key_term[2], key_term[3]) and any(t_ == ("v", 3) for x in (key_term[2], key_term[3]) for t_ in walk(x))
+                            ok = mul_ok and key_ok
+                            ini = N(init_)
+                            if isinstance(ini, tuple) and ini[0] == "agg" and len(ini[3]) == 2 and all(is_const(x) for x in ini[3]):
+                                fold_inits = {"selector": ini[3][0][1], "multiplier": ini[3][1][1]}
         ctx.ob("SELECTOR", "polynomial", ok, f"build_selector loop: {det}; must be selector += key * multiplier; multiplier *= 31, starting from (0, 1)", sb.file, sb.line, sample=True)
-        inits = {}
+        inits = dict(fold_inits) if fold_inits else {}
         for _bi, _si, s in sb.stmts():
             if s["k"] == "assign" and s["rv"]["k"] == "use" and const_int(s["rv"]["a"]) is not None:
                 nm = sb.local_names().get(s["lhs"]["l"])
@@ -424,7 +507,16 @@ def run(ctx):
                     srcs = []
                     for a in args:
                         inner = [t for t in walk(a) if isinstance(t, tuple) and t[0] == "call" and t[1].endswith("::build_selector")]
-                        srcs.append(inner[0][2][0] if inner else None)
+                        src = inner[0][2][0] if inner else None
+                        na = N(a)
+                        # `[system, scene, material, subview].map(build_selector)` destructured in order
+                        if src is None and isinstance(na, tuple) and na[0] == "idx" and is_const(na[2]) and isinstance(na[1], tuple) and na[1][0] == "call" and na[1][1].endswith("array::<impl [T; N]>::map") and len(na[1][2]) == 2:
+                            arr, fn_ = na[1][2]
+                            if isinstance(arr, tuple) and arr[0] == "agg" and arr[1] == "array" and isinstance(fn_, tuple) and fn_[0] == "kfn" and fn_[1].endswith("::build_selector") and na[2][1] < len(arr[3]):
+                                src = arr[3][na[2][1]]
+                        if isinstance(src, tuple) and src[0] == "v":
+                            src = ("p", src[1])
+                        srcs.append(src)
                     ok = srcs == [("p", 1), ("p", 2), ("p", 3), ("p", 4)]
         ctx.ob("SELECTOR", "key-list-order", ok, "combined selector = build_selector_from_keys(sel(system), sel(scene), sel(material), sel(subview))", kb.file, kb.line)
     else:
